@@ -1,6 +1,8 @@
 pub mod c06;
 pub mod c10;
 pub mod c12;
+pub mod c13;
+pub mod c14;
 pub mod c15;
 pub mod c16;
 pub mod dynamic;
@@ -21,6 +23,8 @@ pub fn all() -> Vec<Box<dyn Property>> {
         Box::new(dynamic::Dyn { faults: true }),
         Box::new(c10::C10),
         Box::new(c12::C12),
+        Box::new(c13::C13),
+        Box::new(c14::C14),
         Box::new(c15::C15),
         Box::new(c16::C16),
         Box::new(satcalls::C17),
